@@ -522,7 +522,8 @@ LEVEL_TEXT = ('Exploration by runtime monitoring: icontract postconditions on th
               'Prior.prior(), judged against the inverse CDF computed from the constructor arguments a tap recorded, '
               'plus reference-model comparisons over thousands of seeded priors, prior strings and default-prior '
               'set-ups. Held means held on the recorded executions; the universal quantifier is approached by '
-              'stratified classes (both bound orders, +-150 decades, tails of u) and random fill.')
+              'stratified classes (both bound orders, +-150 decades, tails of u) and random fill.'
+              ' Results the caller keeps and work arrays it re-uses are followed by an ownership ledger (vmon/own.py).')
 LEVEL_NOTE = ('Trusted: scipy.special.ndtri/erfc as the independent normal distribution; the documented prior-string '
               'syntax as read from doc/source/user/taurex/fitting.rst.')
 TECHNIQUE = 'runtime contracts (icontract) on the real prior classes + inverse-CDF reference oracle over seeded workloads'
